@@ -131,20 +131,6 @@ func main() {
 		}
 		_ = os.WriteFile(p, []byte(script(cases[:n])), 0o644)
 		fmt.Println("cases:", len(cases))
-		for w := 1; w <= 4; w++ {
-			ns, nsh, nm := 0, 0, 0
-			for _, s := range structures(w, 3) {
-				if s.weight() != w {
-					continue
-				}
-				ns++
-				for _, sh := range styled(s) {
-					nsh++
-					nm += len(mutationsFor(sh, nil))
-				}
-			}
-			fmt.Printf("weight %d: structures=%d shapes=%d mutations=%d\n", w, ns, nsh, nm)
-		}
 		_ = os.RemoveAll(e.Scratch)
 		os.Exit(0)
 	}
@@ -193,8 +179,8 @@ func main() {
 			}
 		case "error":
 			k := v.detail
-			if len(k) > 60 {
-				k = k[:60]
+			if r := []rune(k); len(r) > 40 {
+				k = string(r[:40])
 			}
 			errKinds[t.mut.name+": "+k]++
 		}
@@ -300,4 +286,3 @@ func topN(m map[string]int, n int) map[string]int {
 	}
 	return out
 }
-
